@@ -400,9 +400,9 @@ META = {
                    "spurious block, blocked requests consume nothing; small-step theorem: with at most k callers between check and record the window sum "
                    "never exceeds T+(k-1)*maxBatch for any number of threads and any schedule. The model is tied to the code by running the same op files "
                    "through flow.LoadRules/api.Entry (virtual clock, goroutines parked at chain.between-check-and-stat) and the compiled Lean driver."),
-    "level_note": ("Trusted: Lean kernel; axioms propext/Classical.choice/Quot.sound; Go harness, virtual util.Clock, yield hook. Modelled not verified: "
-                   "float64 threshold read as exact dyadic (exact while counts stay below 2^53), only Direct+Reject rules, a single LoadRules per case "
-                   "(controller reuse across reloads is C14), default statistic configuration (20x500 ms node array, 1000 ms default view), other slots "
+    "level_note": ("Scope of the proofs: reject-only rule lists and a first load (executed_eq_core ties the general driver definitions to that core); throttling rules in the chain and reloads are covered by the shared chain walk (chain_model_eq_ref), C10's doCheck model and the correspondence/spec runs, not by a refinement proof. Trusted: Lean kernel; axioms propext/Classical.choice/Quot.sound; Go harness, virtual util.Clock, yield hook. Modelled not verified: "
+                   "float64 threshold read as exact dyadic (exact while counts stay below 2^53), Direct+Reject and Direct+Throttling rules (throttling interval as exact rational ceiling; generator keeps power-of-two thresholds "
+                   "where the float64 expression is exact), default statistic configuration (20x500 ms node array, 1000 ms default view), other slots "
                    "(system/isolation/hotspot/breaker) have no rules. Known finding assoc-standalone-own-traffic: faithful model + witness + partial."),
     "design_ref": "DESIGN.md 6.C02",
 }
